@@ -66,13 +66,13 @@ PROPS = {
         explanation='Kani (bounded): call-log harnesses. Every user closure logs (stage, source position); for must-visit terminals the call multiset equals the std chain (each stage exactly once per element reaching it, nothing for elements delivered to other workers); short-circuit terminals call each closure at most once per element. Covers every kernel task and the closure compositions of src/par/*.rs. ' + MC_TEXT,
     ),
     'C06': dict(
-        level='model_checking', verus_units=['merge', 'tasks'],
+        level='model_checking', verus_units=['merge', 'tasks', 'into'],
         kani=True,
         kani_select=dict(quick=r'^k_dep_bag|^k_dep_heap|^k_glue_map_fil_col_n2c1|^k_api_(par2|seq|par2u|sequ)_(map|map_fil)_into_vec',
                          thorough=r'^k_glue_\w+_col_n|^k_api_\w+_into_'),
         trusted_base=[T1, T2, T3, T4, T5, ASPEC, A64, RSCHED, STUBS, MODEL],
         assumptions=[TASK_BOUND, 'targets hold one pre-existing symbolic element'],
-        explanation='Verus (unbounded): the merge appends after the untouched prefix old(output); the chunked arm of map_col::task writes only at positions >= the number of pre-existing elements (offset + chunk.begin_idx). Kani (bounded): collect_into for Vec / SplitVec / FixedVec targets with symbolic pre-existing contents, map-only (ordered bag) and filtering (merge) pipelines, known and unknown source length, parallel and num_threads(1): result == existing ++ std chain. ' + MC_TEXT,
+        explanation='Verus (unbounded): the merge appends after the untouched prefix old(output); the chunked arm of map_col::task writes only at positions >= the number of pre-existing elements (offset + chunk.begin_idx); Vec::map_into and SplitVec::map_into reserve (concurrent) capacity for existing + new elements before the target becomes an ordered bag (T2 precondition of map_col) and hand back the existing contents as a prefix, for every existing length and every source length. Kani (bounded): collect_into for Vec / SplitVec / FixedVec targets with symbolic pre-existing contents, map-only (ordered bag) and filtering (merge) pipelines, known and unknown source length, parallel and num_threads(1): result == existing ++ std chain. ' + MC_TEXT,
     ),
     'C07': dict(
         level='model_checking', verus_units=['core', 'redtasks'],
@@ -134,12 +134,12 @@ PROPS = {
         explanation='Verus (unbounded, real text): the merge reads every (vector, index) slot exactly once (ghost ledger `reads` is a bijection onto all slots) and pushes exactly that value to the output, so each value is owned exactly once by the output; Runner::run_map hands back every worker vector exactly once. Kani (bounded): a drop-counting item type through filter+collect (merge path), map+collect (ordered bag path) and find with early exit over the real ConIterOfVec: after the result is dropped every item has been dropped exactly once, none twice before.',
     ),
     'C15': dict(
-        level='proof', verus_units=['core'],
+        level='proof', verus_units=['core', 'into'],
         kani=True,
         kani_select=dict(quick=r'^k_pair_|^k_dep_huge|^k_glue_map_fil_(cnt|find)_n3c1|^k_glue_filtermap_fil_find_n3c1|^k_glue_map_fil_red_n3c1', thorough=r'^k_pair_|^k_dep_huge|^k_glue_'),
         trusted_base=[T1, T5, AHW, A64, ASPEC, ARITH, STUBS, MODEL],
         assumptions=['domain restriction (known finding KF-C15-1): chunk sizes c with len + c*(T+1) > usize::MAX wrap the dependency\'s position counter; the contracts do not cover them', TASK_BOUND + ' (only for "result independent of worker count / chunk size")'],
-        explanation='Verus (unbounded): every arithmetic operation, assert!, expect, index and division in parameter resolution (calc_num_threads, calc_chunk_size, div_ceil, find_chunk_size, min_chunk_size, lag/fibonacci) and in the Runner is safe for all inputs; chunk >= 1, threads >= 1; the spawn loops terminate. Kani (bounded): kernels agree with the parameter-free sequential oracle for the worker counts / chunk sizes of the shapes.',
+        explanation='Verus (unbounded): every arithmetic operation, assert!, expect, index and division in parameter resolution (calc_num_threads, calc_chunk_size, div_ceil, find_chunk_size, min_chunk_size, lag/fibonacci) and in the Runner is safe for all inputs; chunk >= 1, threads >= 1; the spawn loops terminate; the map-only collect_into targets always have room for every position written (no capacity panic that depends on the parameters). Kani (bounded): kernels agree with the parameter-free sequential oracle for the worker counts / chunk sizes of the shapes.',
     ),
     'C16': dict(
         level='proof', verus_units=['core'],
